@@ -328,6 +328,7 @@ def copy_world(src_path: str, **kw: Any):
 
     path = os.path.join(env.scratch_dir(), f"il-{os.getpid()}-{random.randrange(1 << 40)}.db")
     shutil.copyfile(src_path, path)
+    kw.setdefault("base_time", os.path.getmtime(src_path))
     w = World(path=path, **kw)
     w.owns_file = True
     return w
